@@ -80,18 +80,30 @@ class Key(PathElement):
 
   def __lt__(self, other: PathElement) -> bool:
     if type(self) is type(other):
+      # Keys are ordered by a total order, so that sorting paths never depends
+      # on the order in which they are presented: numbers first (among
+      # themselves by value), then by type name; keys of one type by value,
+      # except where Python's own `<` is missing (falls back to repr) or is
+      # only a partial order (sets: by their sorted element reprs).
+      a, b = self.key, other.key
+      a_class, b_class = _key_class(a), _key_class(b)
+      if a_class != b_class:
+        return a_class < b_class
+      if isinstance(a, (set, frozenset)) and isinstance(b, (set, frozenset)):
+        return sorted(map(repr, a)) < sorted(map(repr, b))
       try:
-        return self.key < other.key
+        return a < b
       except TypeError:
-        # Keys of types that Python cannot order (e.g. `1` and `'a'`, or
-        # `None`): order them by type name, then by repr, so that paths can
-        # always be sorted.
-        return (type(self.key).__qualname__, repr(self.key)) < (
-            type(other.key).__qualname__,
-            repr(other.key),
-        )
+        return repr(a) < repr(b)
     else:
       return super().__lt__(other)
+
+
+def _key_class(key: Any) -> str:
+  """Returns the name of the class of mutually comparable keys `key` is in."""
+  if isinstance(key, (int, float)):
+    return ""
+  return type(key).__qualname__
 
 
 @dataclasses.dataclass(frozen=True)
